@@ -15,6 +15,34 @@ import tempfile
 from harness import common, par
 
 FAMILIES = ['cycle', 'chain', 'alt', 'noloc', 'badloc', 'e500', 'e401', 'reset', 'selfredirect', 'auth401']
+DEAD_PORT = 9
+
+# connection attempts to a port nobody listens on cannot be seen by a server: they are counted through the interpreter's
+# audit events (socket.connect), one hook per worker process
+_connect_watch = {}
+
+
+def _audit(event, args):
+    if event == 'socket.connect' and _connect_watch:
+        try:
+            addr = args[1]
+            w = _connect_watch.get((addr[0], addr[1]))
+        except Exception:
+            return
+        if w is not None:
+            w['n'] += 1
+            if w['n'] == w['breaker_at'] and w.get('breaker'):
+                w['breaker']()
+
+
+def watch_connects(addr, port, breaker_at, breaker):
+    import sys
+    if not _connect_watch.get('_installed'):
+        sys.addaudithook(_audit)
+        _connect_watch['_installed'] = True
+    w = {'n': 0, 'breaker_at': breaker_at, 'breaker': breaker}
+    _connect_watch[(addr, port)] = w
+    return w
 
 
 def make_handler(case):
@@ -37,7 +65,9 @@ def make_handler(case):
                 return {'status': 503, 'reason': 'Unavailable', 'headers': html, 'body': b'later'}
             return {'status': 404, 'reason': 'NF', 'headers': html, 'body': b'nf'}
         if t == '/':
-            links = ''.join('<a href="/%s/0">%s</a>\n' % (f, f) for f in case['families'])
+            links = ''.join('<a href="/%s/0">%s</a>\n' % (f, f) for f in case['families'] if f != 'refused')
+            if 'refused' in case['families']:
+                links += '<a href="http://c.test:%d/refused/0">refused</a>\n' % DEAD_PORT
             links += '<a href="/sentinel.html">s</a>'
             return {'status': 200, 'headers': html, 'body': ('<html><body>%s</body></html>' % links).encode()}
         if t == '/sentinel.html':
@@ -63,6 +93,13 @@ def make_handler(case):
             return {'status': code, 'reason': 'R', 'headers': [('Location', 'http://[::bad/%%')], 'body': b''}
         if fam == 'e500':
             return {'status': 500, 'reason': 'ISE', 'headers': html, 'body': b'<html>err</html>'}
+        if fam == 'auth307':
+            # a challenge and a request-repeating redirect in turn: each answer alone is harmless
+            if hits[fam0] % 2 == 1:
+                return {'status': 401, 'reason': 'Unauthorized', 'headers': html + [('WWW-Authenticate', 'Basic realm="x"')],
+                        'body': b'<html>no</html>'}
+            return {'status': codes[n % len(codes)] if codes[n % len(codes)] in (307, 308) else 307, 'reason': 'R',
+                    'headers': [('Location', '/auth307/%d' % (n + 1))], 'body': b''}
         if fam in ('e401', 'auth401'):
             return {'status': 401, 'reason': 'Unauthorized', 'headers': html + [('WWW-Authenticate', 'Basic realm="x"')],
                     'body': b'<html>no</html>'}
@@ -74,9 +111,15 @@ def make_handler(case):
 
 def run_case(case, part):
     from harness import servers, crawl
-    addrs, port = servers.allocate_addresses(2)
+    addrs, port = servers.allocate_addresses(3)
     srv = servers.Server(make_handler(case), addrs, port).start()
     tmp = tempfile.mkdtemp(prefix='vc18')
+    rescue = []
+
+    def open_dead_port():
+        # circuit breaker for a crawler that retries a refused connection for ever: the port starts to answer
+        rescue.append(servers.Server(lambda req: {'status': 404, 'reason': 'NF', 'body': b'breaker'}, [addrs[2]], DEAD_PORT).start())
+    watch = watch_connects(addrs[2], DEAD_PORT, 60, open_dead_port) if 'refused' in case['families'] else None
     try:
         db = os.path.join(tmp, 'crawl.db')
         argv = ['http://a.test/', '-r', '--level', '1'] + ([] if case.get('robots_mode') else ['--no-robots']) + ['--database', db, '-P', tmp, '--delete-after',
@@ -84,11 +127,18 @@ def run_case(case, part):
                 '--concurrent', str(case['concurrent']), '--timeout', '10']
         if case['with_login']:
             argv += ['--http-user', 'u', '--http-password', 'p']
-        res = crawl.run_app(argv, {'a.test': addrs[0], 'b.test': addrs[1]})
+        if case.get('retry_connrefused'):
+            argv += ['--retry-connrefused']
+        if 'refused' in case['families']:
+            argv += ['--span-hosts']
+        res = crawl.run_app(argv, {'a.test': addrs[0], 'b.test': addrs[1], 'c.test': addrs[2]})
         rows = crawl.read_table(db) if os.path.exists(db) else []
         log = srv.log.snapshot()
     finally:
         srv.stop()
+        for r in rescue:
+            r.stop()
+        _connect_watch.pop((addrs[2], DEAD_PORT), None)
         shutil.rmtree(tmp, ignore_errors=True)
     part.evaluations += 1
     replay = case
@@ -116,6 +166,9 @@ def run_case(case, part):
     if not any(e['target'] == '/sentinel.html' for e in log):
         part.violation('sentinel-not-fetched', {'counts': counts}, replay)
     tries, maxr = case['tries'], case['max_redirect']
+    if watch is not None:
+        counts['refused'] = watch['n']
+        part.count('connection_attempts_to_closed_port', watch['n'])
     for fam in case['families']:
         n = counts.get(fam, 0)
         part.count('requests_in_failing_families', n)
@@ -126,7 +179,12 @@ def run_case(case, part):
             per_visit = 1
         auth_extra = 1 if case['with_login'] and fam in ('e401', 'auth401') else 0
         bound = tries * (per_visit + auth_extra)
-        row = rowmap.get('http://a.test/%s/0' % fam)
+        if fam == 'auth307':
+            # every hop of the visit may be challenged once
+            bound = tries * (maxr + 1) * 2
+        if fam == 'refused':
+            bound = tries if case.get('retry_connrefused') else 1
+        row = rowmap.get(('http://c.test:%d/refused/0' % DEAD_PORT) if fam == 'refused' else 'http://a.test/%s/0' % fam)
         detail = {'family': fam, 'requests': n, 'bound': bound, 'tries': tries, 'max_redirect': maxr, 'row': row}
         if n > bound:
             part.violation('more-requests-than-limits-allow/' + fam, detail, replay)
@@ -178,9 +236,16 @@ def main():
         for i in range(n):
             m, t = combos[i % len(combos)] if i < len(combos) or check.thorough else rng.choice(combos)
             fams = [f for f in FAMILIES if f != 'auth401']
-            cases.append({'max_redirect': m, 'tries': t, 'families': fams,
+            login = rng.random() < 0.4
+            if login:
+                fams.append('auth307')
+            retry_refused = None
+            if rng.random() < 0.5:
+                fams.append('refused')
+                retry_refused = rng.random() < 0.6
+            cases.append({'max_redirect': m, 'tries': t, 'families': fams, 'retry_connrefused': retry_refused,
                           'codes': [rng.choice([301, 302, 303, 307, 308]) for _ in range(rng.choice([1, 2, 3]))],
-                          'with_login': rng.random() < 0.4, 'concurrent': rng.choice([1, 1, 3]),
+                          'with_login': login, 'concurrent': rng.choice([1, 1, 3]),
                           'robots_mode': 'always-503' if i % 8 == 7 else None})
         nj = check.jobs * (2 if check.thorough else 1)
         jobs = [{'cases': cases[i::nj]} for i in range(nj) if cases[i::nj]]
